@@ -25,9 +25,34 @@ PROBE = "serde_2026::de::serialized_length_serde_2026"
 ALIAS = {"atom_len": "length"}
 
 
+def rpo(f):
+    """{block: position in reverse post-order}: execution order of the CFG, independent of how blocks are numbered (inlined
+    code is numbered last) and of where a helper's lines sit in the file"""
+    if hasattr(f, "_rpo_index"):
+        return f._rpo_index
+    seen, post = set(), []
+    stack = [(0, iter([tb for tb, _ in f.succ(0)]))]
+    seen.add(0)
+    while stack:
+        b, it = stack[-1]
+        adv = False
+        for tb in it:
+            if tb not in seen:
+                seen.add(tb)
+                stack.append((tb, iter([x for x, _ in f.succ(tb)])))
+                adv = True
+                break
+        if not adv:
+            post.append(b)
+            stack.pop()
+    f._rpo_index = {b: i for i, b in enumerate(reversed(post))}
+    return f._rpo_index
+
+
 def validation_seq(f):
     out = []
-    for b in sorted(f.reachable_blocks()):
+    order = rpo(f)
+    for b in sorted(f.reachable_blocks(), key=lambda x: order.get(x, 10 ** 6)):
         t = f.term(b)
         if t["k"] == "call":
             c = (t.get("callee") or "").split("::")[-1]
@@ -46,7 +71,8 @@ def varint_quantities(f):
     """{local: 'V<k>'}: every local whose value derives from exactly one read_varint call site is named after the ORDINAL of that
     call (k-th read_varint of the function, in source order) - the identity of a header quantity is where it was read, not what
     the local holding it is called.  Tuples are followed field by field (`let (length, count) = if .. {(a, b)} else {(c, 1)}`)."""
-    sites = sorted((t["ln"], b) for b, t in f.calls() if (t.get("callee") or "").split("::")[-1] == "read_varint")
+    order = rpo(f)
+    sites = sorted((order.get(b, 10 ** 6), b) for b, t in f.calls() if (t.get("callee") or "").split("::")[-1] == "read_varint")
     sites = [b for _, b in sites]
     memo = {}
 
